@@ -1,11 +1,17 @@
 /-
-Model of the two recursive directory walks of the readers (property C05, termination clause).
+Model of the two recursive directory walks of the readers (property C05, termination and size clauses).
 
 * `fillDir`   — `fill_dir` of `lib/common/src/read_tree.c` (rdsquashfs, sqfsdiff): refuses an entry whose
   inode *number* equals that of the directory being filled or of one of its parents (`would_be_own_parent`).
 * `dirRec`    — the stack walk of `lib/sqfs/src/io/dir_rec.c` (sqfs2tar) over the squashfs iterator
   (`dir_iterator.c`): the current code has no ancestor check (`fixed = false`, defect D17); the repaired code
   refuses a directory whose inode reference is already on the stack.
+
+Both exist twice: `fillDir` / `dirRec` are the code of /repo before `fixes/C05-dir-visited-set.patch` and
+`fixes/C05-nesting-limit.patch` (kept for the witnesses: exponential expansion of shared sub-directories,
+recursion depth = nesting depth of the image); `fillDirV` / `dirRecV` are the repaired walks: a set of the
+directories entered so far that is shared by the whole walk (every directory is entered at most once), and
+`SQFS_MAX_DIR_NESTING` (a parameter here: the theorems hold for every value of the constant).
 
 The image is abstracted to a directory graph: for an inode reference, the references of the entries of its
 listing (in order), whether an inode is a directory, and the `inode_number` field stored in it.  All three are
@@ -62,5 +68,68 @@ def dirRec (fixed : Bool) (g : DirGraph) : Nat → List Nat → Nat → Except E
 
 /-- sqfs2tar: the recursive iterator started on the root directory -/
 def tarWalk (fixed : Bool) (g : DirGraph) (fuel root : Nat) : Except Err Nat := dirRec fixed g fuel [] root
+
+/-! ## the repaired walks: one visited set per walk, nesting limit -/
+
+/-- the loops of a walk that threads a state (the set of directories entered so far) through the entries `l` in
+listing order: sum of `1 + (nodes below)`; first error wins -/
+def sumEntriesV {σ : Type} (sub : σ → Nat → Except Err (Nat × σ)) (isDir : Nat → Bool) :
+    σ → List Nat → Except Err (Nat × σ)
+  | vis, [] => .ok (0, vis)
+  | vis, c :: t =>
+    match (if isDir c then sub vis c else .ok (0, vis)) with
+    | .error e => .error e
+    | .ok (k, vis1) =>
+      match sumEntriesV sub isDir vis1 t with
+      | .error e => .error e
+      | .ok (n, vis2) => .ok (1 + k + n, vis2)
+
+/--
+`fill_dir(dr, root, state, flags, visited)` with both repairs.  `level` = `nesting_level(root)` (number of parent
+nodes), `anc` as in `fillDir`, `vis` = the inode *numbers* in the `visited` tree (all directories entered so far
+in this call of `sqfs_dir_reader_get_full_hierarchy`).  Returns the number of nodes created and the new set.
+-/
+def fillDirV (g : DirGraph) (limit : Nat) : Nat → Nat → List UInt32 → List UInt32 → Nat →
+    Except Err (Nat × List UInt32)
+  | 0, _, _, _, _ => .error .fuel
+  | fuel + 1, level, anc, vis, ref =>
+    -- `if (nesting_level(root) > SQFS_MAX_DIR_NESTING) return SQFS_ERROR_OVERFLOW;`
+    if level > limit then .error .overflow
+    -- first loop: every entry is checked with would_be_own_parent(root, n)
+    else if (g.entries ref).any (fun c => anc.contains (g.inum c)) then .error .linkLoop
+    -- second loop: `enter_directory(visited, n)` (lookup, else insert), then recurse
+    else sumEntriesV (fun vis c =>
+        if vis.contains (g.inum c) then .error .linkLoop
+        else fillDirV g limit fuel (level + 1) (g.inum c :: anc) (g.inum c :: vis) c) g.isDir vis (g.entries ref)
+
+/-- `sqfs_dir_reader_get_full_hierarchy` from the root inode on (`enter_directory(&visited, tail)` first) -/
+def readTreeV (g : DirGraph) (limit fuel root : Nat) : Except Err Nat :=
+  match fillDirV g limit fuel 0 [g.inum root] [g.inum root] root with
+  | .ok (n, _) => .ok n
+  | .error e => .error e
+
+/--
+`dir_rec.c` `next()` over `dir_iterator.c` with both repairs.  `depth` = `it->depth` (entries on the stack, the
+base directory included), `vis` = the inode *references* in the `dir_tracker_t` shared by the outermost squashfs
+iterator and every iterator opened below it.  (`dir_rec.c` opens every entry once, so the "same entry again"
+case of `it_open_subdir` does not occur in this walk.)  For a directory entry: first the nesting test of
+`dir_rec.c`, then `open_subdir` (lookup, else insert).
+-/
+def dirRecV (g : DirGraph) (limit : Nat) : Nat → Nat → List Nat → Nat → Except Err (Nat × List Nat)
+  | 0, _, _, _ => .error .fuel
+  | fuel + 1, depth, vis, ref =>
+    sumEntriesV (fun vis c =>
+        if depth > limit then .error .overflow
+        else if vis.contains c then .error .linkLoop
+        else dirRecV g limit fuel (depth + 1) (c :: vis) c) g.isDir vis (g.entries ref)
+
+/-- sqfs2tar: the recursive iterator started on the root directory (whose own reference is not recorded) -/
+def tarWalkV (g : DirGraph) (limit fuel root : Nat) : Except Err Nat :=
+  match dirRecV g limit fuel 1 [] root with
+  | .ok (n, _) => .ok n
+  | .error e => .error e
+
+/-- number of directory-listing entries of the directories `R` -/
+def listingEntries (g : DirGraph) (R : List Nat) : Nat := (R.map (fun r => (g.entries r).length)).sum
 
 end Sqfs.ReaderWalk
